@@ -3,6 +3,7 @@
    Rust by the c18b11 / c18b12 differentials).  ECDSA / Schnorr and the `bech32` crate are trusted
    dependencies: nothing below is about them. -/
 import LdkModel.Proofs.Bech32
+import LdkModel.Generated.C18Consts
 import LdkModel.Proofs.Merkle
 import LdkModel.Proofs.Bolt11
 import LdkModel.Proofs.Bits
@@ -31,14 +32,12 @@ theorem bech32_single_symbol_detected (hrp : List UInt8) (pre post : List U5) (a
   · -- valid symbol: the residues differ
     have hne : polymod (hrpExpand hrp ++ (pre ++ b :: post)) ≠ 1 := by
       intro hpm'
-      unfold polymod at hpm hpm'
-      rw [List.foldl_append, List.foldl_append, List.foldl_cons] at hpm hpm'
-      have hs : (List.foldl polymodStep (List.foldl polymodStep 1 (hrpExpand hrp)) pre).toNat < 2 ^ 30 := by
-        apply foldl_lt _ hpre
-        apply foldl_lt _ (hrpExpand_valid hrp)
-        decide
-      have := foldl_inj post hpost _ _ (step_lt _ a ha) (step_lt _ b hb) (hpm.trans hpm'.symm)
-      exact hab (step_inj_sym ha hb this)
+      rw [← List.append_assoc] at hpm hpm'
+      refine polymod_single_change (hrpExpand hrp ++ pre) post a b ?_ hpost ha hb hab (hpm.trans hpm'.symm)
+      intro x hx
+      rcases List.mem_append.mp hx with h | h
+      · exact hrpExpand_valid hrp x h
+      · exact hpre x h
     simp [hne]
   · -- not a symbol at all
     have : validSyms (pre ++ b :: post) = false := by
@@ -51,6 +50,58 @@ theorem bech32_single_symbol_detected (hrp : List UInt8) (pre post : List U5) (a
 example : verifyChecksum [0x61] [10, 28, 25, 31, 20, 31] = true := by decide
 example : verifyChecksum [0x61] [10, 28, 25, 31, 20, 30] = false :=
   bech32_single_symbol_detected [0x61] [10, 28, 25, 31, 20] [] 31 30 (by decide) (by decide)
+
+/-- Human-readable part, partial: a changed HRP character that keeps its upper three bits (digit ↔
+    digit — every amount digit change —, lower-case letter ↔ lower-case letter — `m/u/n/p` swaps,
+    `bc`/`tb` confusions) alters exactly one symbol of the expanded HRP and is detected at any length.
+    MISSING for the general statement: a character change that also alters the upper three bits
+    (letter ↔ digit) changes TWO checksum symbols; that case is covered by the c18b11 differential
+    (every single-character mutant is rejected by the real parser and the model), not by a theorem. -/
+theorem bech32_hrp_char_partial (hpre hpost : List UInt8) (c c' : UInt8) (data : List U5)
+    (hhigh : c >>> 5 = c' >>> 5) (hne : c ≠ c')
+    (h : verifyChecksum (hpre ++ c :: hpost) data = true) :
+    verifyChecksum (hpre ++ c' :: hpost) data = false := by
+  unfold verifyChecksum at h ⊢
+  simp only [Bool.and_eq_true, beq_iff_eq] at h
+  obtain ⟨hvalid, hpm⟩ := h
+  have hdata : ∀ x ∈ data, x < 32 := by
+    intro x hx
+    have := List.all_eq_true.mp hvalid x hx
+    simpa using this
+  have hlow : c &&& 31 ≠ c' &&& 31 := fun e => hne (byte_split hhigh e)
+  have e1 : ∀ z : UInt8, hrpExpand (hpre ++ z :: hpost) ++ data =
+      (hpre.map (fun (x : UInt8) => x >>> 5) ++ (z >>> 5) :: hpost.map (fun (x : UInt8) => x >>> 5) ++ [0] ++
+        hpre.map (fun (x : UInt8) => x &&& 31)) ++ (z &&& 31) :: (hpost.map (fun (x : UInt8) => x &&& 31) ++ data) := by
+    intro z; simp [hrpExpand]
+  have hne' : polymod (hrpExpand (hpre ++ c' :: hpost) ++ data) ≠ 1 := by
+    intro hpm'
+    rw [e1] at hpm hpm'
+    rw [← hhigh] at hpm'
+    have hv : ∀ z : UInt8, ∀ x ∈ hrpExpand (hpre ++ z :: hpost), x < 32 := fun z => hrpExpand_valid _
+    refine polymod_single_change _ _ (c &&& 31) (c' &&& 31) ?_ ?_ ?_ ?_ hlow (hpm.trans hpm'.symm)
+    · intro x hx
+      apply hv c x
+      simp only [hrpExpand, List.map_append, List.map_cons, List.mem_append, List.mem_cons] at hx ⊢
+      simp only [List.mem_singleton, List.not_mem_nil, or_false] at hx ⊢
+      rcases hx with ((h | h | h) | h) | h
+      · exact Or.inl (Or.inl (Or.inl h))
+      · exact Or.inl (Or.inl (Or.inr (Or.inl h)))
+      · exact Or.inl (Or.inl (Or.inr (Or.inr h)))
+      · exact Or.inl (Or.inr h)
+      · exact Or.inr (Or.inl h)
+    · intro x hx
+      rcases List.mem_append.mp hx with h | h
+      · apply hv c x
+        simp only [hrpExpand, List.map_append, List.map_cons, List.mem_append, List.mem_cons]
+        exact Or.inr (Or.inr (Or.inr h))
+      · exact hdata x h
+    · exact hv c _ (by simp [hrpExpand])
+    · exact hv c' _ (by simp [hrpExpand])
+  simp [hne']
+
+/-- non-vacuity: `a12uel5l` verifies; `b12uel5l` (same upper bits, one letter changed) does not -/
+example : verifyChecksum [0x62] [10, 28, 25, 31, 20, 31] = false :=
+  bech32_hrp_char_partial [] [] 0x61 0x62 _ (by decide) (by decide) (by decide)
 
 /-! ## BOLT-11: data part -/
 section bolt11
@@ -213,6 +264,60 @@ example : parseData (serializeData 1 [(1, List.replicate 52 3), (13, [])])
     = .ok (1, [(1, List.replicate 52 3), (13, [])]) :=
   bolt11_data_roundtrip 1 _ (by decide) (by decide)
 
+/-- An invoice accepted by `Bolt11Invoice::from_signed` has exactly one payment hash, one description
+    (or description hash), one payment secret, a positive signature verdict and an amount that is a
+    whole number of millisatoshi. -/
+theorem from_signed_ok_fields (v : Bool) (i : SignedRaw) (h : fromSigned v i = .ok ()) :
+    countKnown i.fields [tagPaymentHash] = 1 ∧ countKnown i.fields [tagDescription, tagDescriptionHash] = 1 ∧
+      countKnown i.fields [tagPaymentSecret] = 1 ∧
+      v = true ∧ i.hrp.amountOk = true := by
+  unfold fromSigned at h
+  by_cases a1 : countKnown i.fields [tagPaymentHash] < 1
+  · simp [a1] at h
+  by_cases a2 : countKnown i.fields [tagPaymentHash] > 1
+  · simp [a1, a2] at h
+  by_cases a3 : countKnown i.fields [tagDescription, tagDescriptionHash] < 1
+  · simp [a1, a2, a3] at h
+  by_cases a4 : countKnown i.fields [tagDescription, tagDescriptionHash] > 1
+  · simp [a1, a2, a3, a4] at h
+  simp only [a1, a2, a3, a4, ↓reduceIte, checkPaymentSecret] at h
+  by_cases a5 : countKnown i.fields [tagPaymentSecret] < 1
+  · simp [a5] at h
+  by_cases a6 : countKnown i.fields [tagPaymentSecret] > 1
+  · simp [a5, a6] at h
+  simp only [a5, a6, ↓reduceIte] at h
+  split at h
+  · simp at h
+  · cases v
+    · exfalso
+      revert h
+      simp only [Bool.not_false, ↓reduceIte]
+      split
+      · simp
+      · split <;> simp
+    · cases hA : i.hrp.amountOk
+      · exfalso
+        revert h
+        simp only [hA, Bool.not_false, Bool.not_true, ↓reduceIte]
+        split
+        · simp
+        · split <;> simp
+      · exact ⟨by omega, by omega, by omega, rfl, rfl⟩
+
+/-- Acceptance needs the signature check to pass, whatever the fields are.  Together with
+    `bolt11_sig_covers` this is the model-level content of "cannot be altered and keep the holder's
+    name": the verdict is about the hash of HRP + all data symbols (ECDSA itself is trusted). -/
+theorem from_signed_requires_signature (i : SignedRaw) : fromSigned false i ≠ .ok () := by
+  intro h
+  have := (from_signed_ok_fields false i h).2.2.2.1
+  simp at this
+
+/-- non-vacuity: a minimal well-formed field set is accepted when the signature verdict is positive -/
+def sampleAccepted : SignedRaw :=
+  { hrp := ⟨.bitcoin, some 10, some .pico⟩, timestamp := 0,
+    fields := [⟨1, true, []⟩, ⟨13, true, []⟩, ⟨16, true, []⟩, ⟨5, true, [16, 0, 0]⟩], sig := [] }
+example : fromSigned true sampleAccepted = .ok () := rfl
+
 end bolt11
 
 /-! ## BOLT-12: merkle root binding -/
@@ -257,6 +362,13 @@ theorem merkle_binding_ideal (H : Tag → Bytes → Bytes) (hH : CollisionFree H
     (h₁ : rs₁.Pairwise (fun a b => a.ty < b.ty)) (h₂ : rs₂.Pairwise (fun a b => a.ty < b.ty))
     (he : rootHash H rs₁ = rootHash H rs₂) : nonSig rs₁ = nonSig rs₂ :=
   merkle_binding H rs₁ rs₂ (hH.on _) h₁ h₂ he
+
+/-- The list formulation the binding theorem is about IS the in-place loop of `root_hash`
+    (`leaves[i] = branch(leaves[i], leaves[i + offset])` for `i = 0, step, 2·step, …`, level after
+    level, result in slot 0) — for every record list and every tagged hash. -/
+theorem merkle_in_place_eq (H : Tag → Bytes → Bytes) (rs : List Rec) :
+    rootHashInPlace H rs = rootHash H rs :=
+  rootHashInPlace_eq H rs
 
 /-- non-vacuity: a toy 32-byte tagged hash (tag byte, then the byte sum repeated) is collision free
     on the queries of two different one-record streams, so the theorem separates their roots -/
@@ -397,6 +509,90 @@ example : verifyRecipient (fun _ _ => List.replicate 32 7) id [] [] [] []
 example : verifyRecipient (fun _ _ => List.replicate 32 7) id [] [] [] []
     (List.replicate 16 1 ++ List.replicate 32 8) = .err := by decide
 
+/-! ### which offer records the check covers -/
+open Ldk.Merkle (Rec)
+
+/-- Coverage, positive half: on an ascending offer stream every record of the offer range 1..80
+    other than the metadata record itself (and the issuer id when the signing key is derived), and
+    every experimental offer record, is part of the MAC input — so by `metadata_verify_iff` altering,
+    adding or removing any of them changes the metadata that verifies (unless the MAC collides). -/
+theorem offer_covered_complete (d : Bool) (rs : List Rec) (hasc : rs.Pairwise (fun a b => a.ty < b.ty))
+    (r : Rec) (hr : r ∈ rs)
+    (hin : (1 ≤ r.ty ∧ r.ty < 80 ∧ r.ty ≠ 4 ∧ (r.ty ≠ 22 ∨ d = false)) ∨
+           (1000000000 ≤ r.ty ∧ r.ty < 2000000000)) :
+    r ∈ offerCovered d rs := by
+  unfold offerCovered
+  rcases hin with ⟨h1, h2, h3, h4⟩ | ⟨h1, h2⟩
+  · apply List.mem_append_left
+    rw [List.mem_filter]
+    refine ⟨mem_rangeRecs _ _ rs r hasc hr h1 h2, ?_⟩
+    simp only [OFFER_METADATA_TYPE, OFFER_ISSUER_ID_TYPE, bne_iff_ne, ne_eq, Bool.and_eq_true,
+      Bool.or_eq_true, Bool.not_eq_true', decide_eq_true_eq]
+    exact ⟨h3, h4⟩
+  · exact List.mem_append_right _ (mem_rangeRecs _ _ rs r hasc hr h1 h2)
+
+/-- Coverage, negative half (the model-level content of KNOWN FINDING KF-C18-1): the metadata
+    record (type 4) is never part of the MAC input … -/
+theorem offer_metadata_record_not_covered (d : Bool) (rs : List Rec) :
+    ∀ r ∈ offerCovered d rs, r.ty ≠ 4 := by
+  intro r hr
+  unfold offerCovered at hr
+  rcases List.mem_append.mp hr with h | h
+  · have := (List.mem_filter.mp h).2
+    simp only [OFFER_METADATA_TYPE, bne_iff_ne, ne_eq, Bool.and_eq_true] at this
+    exact this.1
+  · have := (rangeRecs_in_range _ _ rs r h).1
+    simp only [EXPERIMENTAL_OFFER_TYPES_LO] at this
+    omega
+
+/-- … and with recipient data (signing key derived from a blinded-path nonce) it is not read either:
+    the verdict depends on the stream only through the covered records and the issuer id.  Hence a
+    copy of such an offer with a metadata record ADDED (or changed) still verifies. -/
+theorem offer_recipient_data_ignores_metadata_record (pubOf : Bytes → Bytes) (key nonce : Bytes)
+    (rs rs' : List Rec) (hc : offerCovered true rs = offerCovered true rs')
+    (hk : rs.find? (fun r => r.ty == OFFER_ISSUER_ID_TYPE) = rs'.find? (fun r => r.ty == OFFER_ISSUER_ID_TYPE)) :
+    offerVerify mac pubOf key (some nonce) rs = offerVerify mac pubOf key (some nonce) rs' := by
+  unfold offerVerify
+  simp only [hc, hk]
+
+/-- concrete instance: issuer id record alone vs. the same with a 2-byte metadata record in front -/
+example : offerCovered true [⟨[22], [22, 1, 9]⟩] = offerCovered true [⟨[4], [4, 2, 7, 7]⟩, ⟨[22], [22, 1, 9]⟩] := by
+  decide
+
 end metadata
+
+/-! ## constants: the literals the models use are the ones in the Rust source (regenerated each run) -/
+section constants
+open Ldk.C18Consts
+
+/-- every constant of `Generated/C18Consts.lean` (extracted from lightning-invoice lib.rs/de.rs,
+    offers/merkle.rs, offers/signer.rs, offers/nonce.rs, channelmanager.rs on every run) equals the
+    value the models use; a changed tag number, multiplier, length, range or HMAC marker in the source
+    breaks this theorem. -/
+theorem model_constants_match_source :
+    (Bolt11.tagPaymentHash = TAG_PAYMENT_HASH ∧ Bolt11.tagDescription = TAG_DESCRIPTION ∧
+     Bolt11.tagPayeePubKey = TAG_PAYEE_PUB_KEY ∧ Bolt11.tagDescriptionHash = TAG_DESCRIPTION_HASH ∧
+     Bolt11.tagExpiryTime = TAG_EXPIRY_TIME ∧ Bolt11.tagMinFinalCltvExpiryDelta = TAG_MIN_FINAL_CLTV_EXPIRY_DELTA ∧
+     Bolt11.tagFallback = TAG_FALLBACK ∧ Bolt11.tagPrivateRoute = TAG_PRIVATE_ROUTE ∧
+     Bolt11.tagPaymentSecret = TAG_PAYMENT_SECRET ∧ Bolt11.tagPaymentMetadata = TAG_PAYMENT_METADATA ∧
+     Bolt11.tagFeatures = TAG_FEATURES) ∧
+    (Bolt11.sigLen5 = SIGNATURE_LEN_5 ∧ Bolt11.maxLength = MAX_LENGTH ∧ TIMESTAMP_LEN = 7 ∧ TIMESTAMP_BITS = 35 ∧
+     Bolt11.noPrefixUnit = NO_PREFIX_UNIT) ∧
+    (Bolt11.SiPrefix.milli.multiplier = MULT_MILLI ∧ Bolt11.SiPrefix.micro.multiplier = MULT_MICRO ∧
+     Bolt11.SiPrefix.nano.multiplier = MULT_NANO ∧ Bolt11.SiPrefix.pico.multiplier = MULT_PICO ∧
+     Bolt11.SiPrefix.milli.letter = LETTER_MILLI ∧ Bolt11.SiPrefix.micro.letter = LETTER_MICRO ∧
+     Bolt11.SiPrefix.nano.letter = LETTER_NANO ∧ Bolt11.SiPrefix.pico.letter = LETTER_PICO) ∧
+    (Bolt11.Currency.bitcoin.code = CODE_BITCOIN ∧ Bolt11.Currency.testnet.code = CODE_BITCOINTESTNET ∧
+     Bolt11.Currency.regtest.code = CODE_REGTEST ∧ Bolt11.Currency.simnet.code = CODE_SIMNET ∧
+     Bolt11.Currency.signet.code = CODE_SIGNET) ∧
+    (Merkle.sigTypesLo = SIGNATURE_TYPES_LO ∧ Merkle.sigTypesHi = SIGNATURE_TYPES_HI) ∧
+    (OfferMeta.NONCE_LEN = NONCE_LENGTH ∧ OfferMeta.PAYMENT_ID_LEN = PAYMENT_ID_LENGTH ∧
+     OfferMeta.DERIVED_METADATA_HMAC_INPUT = Ldk.C18Consts.DERIVED_METADATA_HMAC_INPUT ∧
+     OfferMeta.DERIVED_METADATA_AND_KEYS_HMAC_INPUT = Ldk.C18Consts.DERIVED_METADATA_AND_KEYS_HMAC_INPUT ∧
+     OfferMeta.WITHOUT_ENCRYPTED_PAYMENT_ID_HMAC_INPUT = Ldk.C18Consts.WITHOUT_ENCRYPTED_PAYMENT_ID_HMAC_INPUT ∧
+     OfferMeta.WITH_ENCRYPTED_PAYMENT_ID_HMAC_INPUT = Ldk.C18Consts.WITH_ENCRYPTED_PAYMENT_ID_HMAC_INPUT) := by
+  decide
+
+end constants
 
 end Ldk.C18
